@@ -318,10 +318,12 @@ func (bridge *ExprBridge) isStringConcatenationExpression(expression string, dat
 
 // fallbackToCustomExpr 回退到自定义表达式系统
 func (bridge *ExprBridge) fallbackToCustomExpr(expression string, data map[string]any) (any, error) {
-	// 尝试处理字符串拼接表达式
-	result, err := bridge.evaluateStringConcatenation(expression, data)
-	if err == nil {
-		return result, nil
+	// 尝试处理字符串拼接表达式：仅当确有文本操作数时才拼接；否则 NULL + 8 会被拼成 "8"，
+	// 而 SQL 语义下 NULL 参与的算术结果为 NULL（由上层的自定义表达式引擎给出）。
+	if bridge.isStringConcatenationExpression(expression, data) {
+		if result, err := bridge.evaluateStringConcatenation(expression, data); err == nil {
+			return result, nil
+		}
 	}
 
 	// 如果不是字符串拼接，尝试简单的数值表达式
